@@ -6,6 +6,10 @@ HERE = os.path.dirname(os.path.abspath(__file__))
 out = {}
 for d in sorted(glob.glob(os.path.join(os.path.dirname(HERE), "seeded", "S*"))):
     m = json.load(open(os.path.join(d, "meta.json")))
+    if m.get("neutralised"):
+        out[m["id"]] = {"property": m["property"], "checks": m["caught_by"], "status": "neutralised", "detail": "a later repair of the library made this change harmless (see meta.json)"}
+        print(m["id"], "neutralised", flush=True)
+        continue
     if m.get("tier") == "thorough":
         # caught in the thorough tier only: run just the thorough-tier family that catches it (selftest/thorough_family.py)
         r = subprocess.run([os.path.join(HERE, "thorough_family.py"), os.path.join(d, "patch.diff"), m["thorough_family"], ",".join(m["caught_by"])],
